@@ -2,4 +2,25 @@ package main
 
 // rules states, per property, how cases are generated and what makes one
 // non-trivial / distinct (the "rule" key of the evidence).
-var rules = map[string]string{}
+var rules = map[string]string{
+	"C01": "cases: enumerated operator adjacencies, statement-fragment sequences and accepted token sequences (distinct by construction) + rapid random trees (distinct by hash of the text). Non-trivial: the reference tree has two operators of different ladder levels in parent/child position, an assignment chain, a postfix chain >= 2, or an if nested under an if…else.",
+	"C02": "cases: operator x producer matrix (distinct by construction) + rapid expressions (distinct by hash). Non-trivial: not (both operands small positive integers and a clean result) — mixed kinds, boundary magnitudes, an expected error, or an equality law.",
+	"C03": "cases: decision-tree walk + rapid programs (distinct by hash of the text). Non-trivial: a read/assign happens while two live scopes bind that name, or the program ends in an undefined-name / redeclaration error.",
+	"C04": "cases: matrices, templates, decision-tree walk, rapid skeletons and closure histories (distinct by hash). Non-trivial: a return placed at nesting depth >= 1 or propagated through a loop, recursion depth >= 3, >= 2 closure instances with interleaved calls, or an arity/callee-matrix case.",
+	"C05": "cases: decision-tree walk + rapid skeletons (distinct by hash). Non-trivial: a break/continue whose innermost loop is nested in another construct and separated from it by an if/block, an else arm taken, or a stray signal.",
+	"C06": "cases: fault x position product + rapid planted faults (distinct by hash). Non-trivial: the fault sits inside at least one enclosing construct (not top level) and the model predicts a runtime error.",
+	"C07": "cases: matrices (distinct by construction) + rapid programs (distinct by hash). Non-trivial: the program applies an operator, index, property, call or built-in to a non-number or boundary magnitude (all matrix cases except nice x nice operands; every generated program).",
+	"C08": "cases: fragment strings and viable-prefix extensions (distinct by construction) + rapid edited programs (distinct by hash). Non-trivial: >= 3 tokens and either rejected with the error not at the first token or accepted with >= 2 statements.",
+	"C09": "cases: enumerated strings (distinct by construction) + rapid texts (distinct by hash). Non-trivial: >= 2 tokens, or a comment, string, line break or lexical error.",
+	"C10": "cases: enumerated code points and literals (distinct by construction) + rapid literals (distinct by hash). Non-trivial: a digit or Bangla-block code point; a literal with a fraction or mixed scripts; every rapid literal (long, halfway, subnormal, threshold).",
+	"C11": "cases: histories compiled to programs (distinct by hash). Non-trivial: >= 2 names alias one array when a write/এড/রিমুভ happens, or two এড on the same source, or a final fault.",
+	"C12": "cases: histories compiled to programs (distinct by hash). Non-trivial: an object with >= 2 keys is written or deleted through one of >= 2 aliases, a literal with >= 2 keys, or a final fault.",
+	"C13": "cases: programs x repetitions; a case is one program (distinct by hash). Non-trivial: the program builds, lists or prints an object with >= 2 keys or has >= 2 side-effecting initialisers.",
+	"C14": "cases: context x probe-value product (distinct by construction) + rapid nestings (distinct by hash). Non-trivial: >= 2 probes, or a skipped probe.",
+	"C15": "cases: enumerated boundary values and code points (distinct by construction) + rapid doubles/strings (distinct by hash). Non-trivial: a number that is not an integer below 1000, or a string that is not ASCII-only.",
+	"C16": "cases: one per (context, value, producer) — the program with that producer, compared against the literal producer's program (distinct by construction; all non-trivial: the two producers are syntactically different).",
+	"C17": "cases: built-in x arity x kinds matrix, permutations (distinct by construction) + rapid doubles (distinct by hash). Non-trivial: a non-integer or boundary argument, or a misuse case.",
+	"C18": "cases: (seed, transformed) pairs (distinct by hash of the transformed text). Non-trivial: the transformed text differs from the seed and the seed prints something or fails.",
+	"C19": "cases: CLI invocations (distinct by hash of command line / script + stdin). Non-trivial: any case other than a clean program without input.",
+	"C20": "cases: sessions (enumerated: distinct by construction; random: by hash). Non-trivial: a failing line precedes a non-failing, non-empty one.",
+}
